@@ -40,7 +40,7 @@ ASSUMPTIONS = [
 
 def run(ctx: Ctx):
   m = model(ctx)
-  for r in (r1, r2, r3, r4, r5, r6):
+  for r in (r1, r2, r3, r4, r5, r6, r8):
     ctx.guard(r, m)
   ctx.include('R-C11-7', '"a freshly created (empty) state is a neutral element'
               ' on either side": merge combines every accumulated statistic on'
@@ -452,12 +452,66 @@ def r6(ctx: Ctx, m):
   ctx.floor(rule, 15, n)
 
 
+def r8(ctx: Ctx, m):
+  rule = 'R-C11-8'
+  ctx.rule(rule, '"a freshly created (empty) state is a neutral element" on the'
+           ' right: when merge has an early return for an empty operand (a test'
+           ' of the operand alone), no field of the receiver is written on the'
+           ' path from the entry to that return — configuration adopted from an'
+           ' empty operand (e.g. its default `_multi_input`) would change what'
+           ' the receiver reports')
+  n = 0
+  for ci, meth in m.merge_methods:
+    op = m.operand(meth)
+    g = cfgm.cfg_of(meth.node)
+    early = []
+    for c in g.nodes:
+      if c.kind != 'cond':
+        continue
+      names = {y.id for y in ast.walk(c.ast) if isinstance(y, ast.Name)}
+      if op in names and 'self' not in names:
+        for s_, lab in c.succ:
+          if lab == 'true' and s_.kind == 'stmt' and isinstance(s_.ast, ast.Return):
+            early.append((c, s_))
+    for c, ret in early:
+      n += 1
+      before = g.reachable([g.entry], avoid=lambda nd, c=c: nd is c, edge_ok=cfgm.only_normal, include_src=True)
+      # nodes that can still reach the guard
+      writes = None
+      for nd in before:
+        if nd.kind != 'stmt' or nd.ast is None:
+          continue
+        if c not in g.reachable([nd], edge_ok=cfgm.only_normal):
+          continue
+        for x in ast.walk(nd.ast):
+          if isinstance(x, (ast.Assign, ast.AugAssign)):
+            tg = x.targets if isinstance(x, ast.Assign) else [x.target]
+            if any(is_self_attr(t) or (isinstance(t, ast.Subscript) and is_self_attr(t.value)) for t in tg):
+              writes = nd
+          if isinstance(x, ast.Call) and unparse(x.func) in ('object.__setattr__', 'setattr') and x.args and (
+              unparse(x.args[0]) == 'self'):
+            writes = nd
+      if writes is not None:
+        ctx.fail(rule, meth, f'{ci.name}.{meth.name}: nothing written before the empty-operand return',
+                 f'{ci.name}.{meth.name} executes `{writes.text()[:60]}` before it returns for an'
+                 f' empty operand (`if {unparse(c.ast)[:40]}: return`): merging a fresh state'
+                 ' on the right changes the receiver, so the result depends on where'
+                 ' the empty shard sits in the merge order', node=writes.ast)
+      else:
+        ctx.ok(rule, meth, f'{ci.name}.{meth.name}: empty operand leaves the receiver untouched', c.ast)
+  ctx.floor(rule, 3, n)
+
+
 from mlmverif.selfcheck import B, OK  # noqa: E402
 
 _R = 'aggregates/rolling_stats.py'
 _U = 'aggregates/utils.py'
 _T = 'aggregates/retrieval.py'
 VARIANTS = [
+    B('flag-adopted-from-empty-operand', _R,
+      '  def merge(self, other: Self) -> Self:\n    if not other.samples:\n      return self',
+      '  def merge(self, other: Self) -> Self:\n    self._multi_input = other.multi_input\n    if not other.samples:\n      return self',
+      'R-C11-8'),
     B('result-normalises-in-place', _R,
       '    return numerator / denominator\n', '    numerator /= denominator\n    return numerator\n', 'R-C11-3'),
     OK('result-divides-into-fresh-local', _R,
